@@ -41,7 +41,7 @@ def run_task(task):
 def main(argv):
     tasks = json.load(open(argv[1]))
     out_path = argv[2]
-    if os.environ.get('DECIMALFP_FORCE_PYTHON_IMPL'):
+    if os.environ.get('DECIMALFP_FORCE_PYTHON_IMPL') and not os.environ.get('SYMX_ALLOW_PY_IMPL'):
         print("conc_runner must run on the default decimalfp build", file=sys.stderr)
         return 3
     mods = sorted({t['scen'] for t in tasks})
@@ -65,7 +65,8 @@ def main(argv):
         _, status = os.waitpid(pid, 0)
         if status != 0:
             with open(out_path, 'a') as f:
-                f.write(json.dumps({'id': task['id'], 'status': 'error',
+                f.write(json.dumps({'id': task['id'],
+                                    'status': 'crash-signal' if status & 0x7f else 'error',
                                     'exc': 'child status %d' % status}) + "\n")
     return 0
 
